@@ -46,9 +46,25 @@ IPv4_PATTERN = re.compile(
     )
 )
 
+# IPv6 addresses that end in an IPv4-style tail (x:x:x:x:x:x:d.d.d.d, with "::"
+# standing for any run of the six leading groups)
+_IPv6_WITH_IPv4_TAIL = (
+    r"([0-9a-f]{{1,4}}:){{6}}{v4}"
+    r"|::([0-9a-f]{{1,4}}:){{0,5}}{v4}"
+    r"|[0-9a-f]{{1,4}}::([0-9a-f]{{1,4}}:){{0,4}}{v4}"
+    r"|([0-9a-f]{{1,4}}:){{2}}:([0-9a-f]{{1,4}}:){{0,3}}{v4}"
+    r"|([0-9a-f]{{1,4}}:){{3}}:([0-9a-f]{{1,4}}:){{0,2}}{v4}"
+    r"|([0-9a-f]{{1,4}}:){{4}}:([0-9a-f]{{1,4}}:)?{v4}"
+    r"|([0-9a-f]{{1,4}}:){{5}}:{v4}"
+).format(v4=r"({octet}\.){{3}}{octet}".format(octet=_IPv4_OCTET_PATTERN))
+
 # Modified from https://stackoverflow.com/a/17871737/1715495
 IPv6_PATTERN = re.compile(
     r"(?:(?<=^)|(?<={enclosing}))".format(enclosing=_IPv6_ENCLOSING)
+    # Forms with an IPv4-style tail must be tried first: "." is an enclosing
+    # character, so the alternatives below would match only the text before the
+    # first dot and leave the rest of the address in the output
+    + r"(?:" + _IPv6_WITH_IPv4_TAIL + r"|"
     + r"(([0-9a-f]{1,4}:){7,7}[0-9a-f]{1,4}"
     r"|([0-9a-f]{1,4}:){1,7}:"
     r"|([0-9a-f]{1,4}:){1,6}:[0-9a-f]{1,4}"
@@ -60,7 +76,7 @@ IPv6_PATTERN = re.compile(
     r"|:((:[0-9a-f]{1,4}){1,7}|:)"
     r"|fe80:(:[0-9a-f]{0,4}){0,4}%[0-9a-z]{1,}"
     + r"|::(ffff(:0{{1,4}})?:)?({octet}\.){{3}}{octet}"
-    r"|([0-9a-f]{{1,4}}:){{1,4}}:({octet}\.){{3}}{octet})"
+    r"|([0-9a-f]{{1,4}}:){{1,4}}:({octet}\.){{3}}{octet}))"
     r"(?={enclosing}|$)".format(enclosing=_IPv6_ENCLOSING, octet=_IPv4_OCTET_PATTERN),
     re.IGNORECASE,
 )
